@@ -323,6 +323,7 @@ func ruleC13(w *World, r *Report) {
 	r.check(ddrOK, "R13.2", hn, "Downlink Data Report is set before the send", w.Pos(sendI.Pos()), "store dominates", "the report is sent without a Downlink Data Report")
 
 	ruleC13RemoteSEID(w, r)
+	ruleSendBufferPrivate(w, r, P, "R13.9")
 	ruleC13Limiter(w, r)
 	ruleC13Dispatch(w, r, h)
 	ruleC13Listeners(w, r)
